@@ -163,3 +163,49 @@ pub fn schema_codec<S: Src>(s: &mut S) {
         Err(e) => assert!(false, "C13: a valid schema section (format {}) must decode: {:?} [{:?}]", v, e, d),
     }
 }
+
+// ---- C05 / C13 (bounded fallback for V-diff): diff_schema on PAIRS of generated trees ---------------------------
+/// structural wire equality on the description trees (struct and field names and every memory-layout annotation are
+/// irrelevant; variant names, discriminants, discriminant width, counts, kinds and array lengths are relevant;
+/// Undefined is never equal to anything)
+fn d_fields_eq(a: &[F], b: &[F]) -> bool { a.len() == b.len() && a.iter().zip(b.iter()).all(|(x, y)| d_eq(&x.1, &y.1)) }
+pub fn d_eq(a: &D, b: &D) -> bool {
+    match (a, b) {
+        (D::U8, D::U8) | (D::U32, D::U32) | (D::Str9(_), D::Str9(_)) | (D::Custom, D::Custom) | (D::ZeroSize, D::ZeroSize) | (D::Str, D::Str)
+        | (D::StdIoError, D::StdIoError) | (D::UninitSlice, D::UninitSlice) | (D::UtcTimestamp, D::UtcTimestamp) => true,
+        (D::Vector(x, _), D::Vector(y, _)) | (D::Opt(x), D::Opt(y)) | (D::Boxed(x), D::Boxed(y)) | (D::Slice(x), D::Slice(y)) | (D::Ref(x), D::Ref(y)) => d_eq(x, y),
+        (D::Arr(n, x), D::Arr(m, y)) => n == m && d_eq(x, y),
+        (D::Struct { fields: fa, .. }, D::Struct { fields: fb, .. }) => d_fields_eq(fa, fb),
+        (D::Enum { variants: va, dsize: da, .. }, D::Enum { variants: vb, dsize: db, .. }) =>
+            da == db && va.len() == vb.len() && va.iter().zip(vb.iter()).all(|(x, y)| x.0 == y.0 && x.1 == y.1 && d_fields_eq(&x.2, &y.2)),
+        (D::Recursion(x), D::Recursion(y)) => x == y,
+        _ => false,
+    }
+}
+fn small<S: Src>(s: &mut S) -> D {
+    match s.below(9) {
+        0 => D::U8, 1 => D::U32, 2 => D::Str9([0u8, 7][s.below(2)]),
+        3 => D::Vector(Box::new(leaf_small(s)), [0u8, 2][s.below(2)]),
+        4 => D::Opt(Box::new(leaf_small(s))),
+        5 => D::Arr([2usize, 3][s.below(2)], Box::new(leaf_small(s))),
+        6 => { let n = s.below(3); D::Struct { size: if s.bool() { Some(8) } else { None }, al: Some(4), fields: (0..n).map(|i| (["a", "zz"][s.below(2)].to_string(), leaf_small(s), if s.bool() { Some(i) } else { None })).collect() } }
+        7 => {
+            let nv = 1 + s.below(2);
+            D::Enum { variants: (0..nv).map(|i| (["V", "W"][s.below(2)].to_string(), [i as u8, 9][s.below(2)], if i == 0 { let n = s.below(2); (0..n).map(|_| ("f".to_string(), leaf_small(s), None)).collect() } else { Vec::new() })).collect(),
+                      dsize: [1u8, 2][s.below(2)], repr: s.bool(), size: None, al: None }
+        }
+        _ => D::Boxed(Box::new(leaf_small(s))),
+    }
+}
+fn leaf_small<S: Src>(s: &mut S) -> D { match s.below(4) { 0 => D::U8, 1 => D::U32, 2 => D::Str9(0), _ => D::ZeroSize } }
+
+/// diff_schema(a, b) reports no difference exactly for wire-equal trees (both argument orders), never panics.
+pub fn diff_tree_pairs<S: Src>(s: &mut S) {
+    let a = small(s);
+    let b = small(s);
+    let (sa, sb) = (build(&a, false), build(&b, false));
+    let none = savefile::diff_schema(&sa, &sb, String::new(), false).is_none();
+    assert!(none == d_eq(&a, &b), "C05/C13: diff_schema reports no difference exactly for wire-equal schemas: {:?} vs {:?}", a, b);
+    let none_rev = savefile::diff_schema(&sb, &sa, String::new(), false).is_none();
+    assert!(none_rev == none, "C05/C13: the comparison does not depend on the argument order: {:?} vs {:?}", a, b);
+}
